@@ -4,9 +4,9 @@ E(k, v) == [k |-> k, v |-> v, sp |-> 0, sub |-> <<>>, al |-> 0, str |-> FALSE]
 ES(k, v) == [k |-> k, v |-> v, sp |-> 0, sub |-> <<>>, al |-> 0, str |-> TRUE]      \* a STRING value "k<v>" (e.g. a context key)
 S(k, v) == [k |-> k, v |-> v, sp |-> 0]
 EN(k, sub) == [k |-> k, v |-> 0, sp |-> 0, sub |-> sub, al |-> 0, str |-> FALSE]
-Nd(p, ps) == [proc |-> p, ps |-> ps, flow |-> FALSE, quoted |-> FALSE, alias |-> 0, sweep |-> NoSweep]
+Nd(p, ps) == [proc |-> p, ps |-> ps, flow |-> FALSE, quoted |-> FALSE, alias |-> 0, pempty |-> 0, sweep |-> NoSweep]
 Sw(el, vals, mode, bc, expr) ==
-    [proc |-> el, ps |-> <<>>, flow |-> FALSE, quoted |-> FALSE, alias |-> 0,
+    [proc |-> el, ps |-> <<>>, flow |-> FALSE, quoted |-> FALSE, alias |-> 0, pempty |-> 0,
      sweep |-> [on |-> TRUE, vname |-> "t", vals |-> vals, ints |-> FALSE, ctx2 |-> FALSE, vorder |-> FALSE, mode |-> mode, bc |-> bc, expr |-> expr, coll |-> "FloatDataCollection", el |-> el]]
 Seed1 == << Nd("FloatValueDataSource", <<E("value", 1)>>),
             Nd("FloatMultiplyOperation", <<E("factor", 3)>>),
@@ -27,5 +27,8 @@ Seed8 == << Nd("FloatValueDataSource", <<E("value", 1)>>),
 Seed9 == << Sw("FloatValueDataSource", <<1, 2, 3, 4, 5, 6, 7, 8, 9>>, "combinatorial", FALSE, <<"t">>) >>     \* a long explicit sequence
 \* a context processor whose output key is bound through a string-valued parameter (context_key)
 Seed10 == << Nd("FloatValueDataSource", <<E("value", 1)>>), Nd("VCtxBump", <<ES("context_key", 1), E("a", 2)>>) >>
-AllSeeds == {Seed1, Seed2, Seed3, Seed4, Seed5, Seed6, Seed7, Seed8, Seed9, Seed10}
+\* commutative chains under a call and under a unary minus
+Seed11 == << Sw("FloatValueDataSource", <<1, 2>>, "combinatorial", FALSE, <<"abs", <<"+", <<"t">>, <<"c", 3>>>>>>),
+             Sw("FloatValueDataSourceWithDefault", <<1, 2>>, "combinatorial", FALSE, <<"neg", <<"*", <<"t">>, <<"c", 2>>>>>>) >>
+AllSeeds == {Seed1, Seed2, Seed3, Seed4, Seed5, Seed6, Seed7, Seed8, Seed9, Seed10, Seed11}
 =============================================================================
